@@ -239,7 +239,7 @@ def seed_rules(an: Analysis, rep):
                             diffs2.append(f"[{_vn9(_V9)}] Args({shown}): the decoder pre-marks {nd} slot(s), the encoder pre-assigns {ne}")
                 rep.add("R09.2", "parameter seeds have the same length on both sides (folded over Args models)", not diffs2, loc(dfn.module, dec_cnt),
                         f"`{norm_src(dec_cnt)}` == len(`{norm_src(enc_seq)[:40]}`) on {len(models)} models" if not diffs2 else
-                        f"{diffs2[0]}: the first local after the parameters counts as already met - when no instruction uses it (`return n; a = 1`) it is not listed as unreferenced and vanishes "
+                        f"{len(diffs2)} of the (version, model) pairs differ, e.g. {diffs2[0]}: the first local after the parameters counts as already met - when no instruction uses it (`return n; a = 1`) it is not listed as unreferenced and vanishes "
                         f"from co_varnames, otherwise every later local gets a position override")
     except (_FE, KeyError, TypeError, AttributeError) as ex:
         raise AnalysisError(f"parameter seed counts not evaluable: {ex}")
